@@ -105,7 +105,8 @@ skip_array(const uint8_t * buf, const uint8_t * end)
 
 	/* Skip entries until we get to the end. */
 	do {
-		/* Skip a value. */
+		/* Skip optional whitespace and a value. */
+		buf = skip_ws(buf, end);
 		buf = skip_value(buf, end);
 
 		/* Skip optional whitespace. */
@@ -142,7 +143,8 @@ skip_object(const uint8_t * buf, const uint8_t * end)
 
 	/* Skip entries until we get to the end. */
 	do {
-		/* If we've run out of input, stop. */
+		/* Skip optional whitespace; if we've run out of input, stop. */
+		buf = skip_ws(buf, end);
 		if (buf == end)
 			return (end);
 
